@@ -6,7 +6,7 @@
 //!           | @Wb          from now on the transmit path is full: the next write is parked (a peer that does not read)
 //!           | @Wa<k>       the next write call is taken only up to k bytes
 //!           | @R           the transmit path has room again (releases a parked write)
-//!                          (client: write tokens before the first chunk take effect before the request is sent)
+//!                          (client: @W / @R tokens before the first chunk take effect before the request is sent)
 //!   role    = server | client
 //!   framing = tcp | rtu
 //!   level   = three digits a f p : app 0..3, frame 0..2, phys 0..2  (e.g. 000 = nothing, 322 = everything)
@@ -217,13 +217,18 @@ async fn run_client(framing: Framing, level: DecodeLevel, tokens: Vec<Token>) ->
     });
     let _ = channel.enable().await;
     settle().await;
-    let lead = tokens.iter().take_while(|t| matches!(t, Token::Write(_))).count();
-    for t in &tokens[..lead] {
-        if let Token::Write(w) = t {
-            wire.script_writes(&[*w]);
+    // transmit-side tokens before the first chunk take effect before the request is sent (level changes
+    // in that prefix keep their place: they are queued behind the request as everywhere else)
+    let first_chunk = tokens.iter().position(|t| matches!(t, Token::Chunk(_))).unwrap_or(tokens.len());
+    let mut rest: Vec<Token> = Vec::new();
+    for (i, t) in tokens.iter().enumerate() {
+        match t {
+            Token::Write(w) if i < first_chunk => wire.script_writes(&[*w]),
+            Token::Release if i < first_chunk => wire.release_write(),
+            t => rest.push(t.clone()),
         }
     }
-    let tokens = tokens[lead..].to_vec();
+    let tokens = rest;
     // a request is outstanding while the peer's bytes arrive, then idle
     let param = RequestParam::new(UnitId::new(1), Duration::from_secs(1));
     let ch = channel.clone();
